@@ -119,6 +119,10 @@ var c17CAlphabet = []c17COpt{
 	{"k=no-params", "k", "bad"},
 	{"nf=non-function", "nf", "bad"},
 	{"nilf=nil", "nilf", "bad"},
+	{"pe=second-result-is-a-concrete-error-pointer", "pe", "bad"},
+	{"ve=second-result-is-a-concrete-error-value", "ve", "bad"},
+	{"r3=three-results", "r3", "bad"},
+	{"fr=first-result-not-a-Collection", "fr", "bad"},
 	{"t=typed-String-arg", "t", "ok1s"},
 	{"t2=Any,Integer args", "t2", "ok2"},
 	{"v=variadic", "v", "variadic"},
@@ -128,6 +132,15 @@ var c17CAlphabet = []c17COpt{
 	{"experimental", "", "exp"},
 	{"transform", "", "transform"},
 }
+
+// concrete types that implement error: not the `error` interface a custom function has to return
+type c17PtrErr struct{}
+
+func (*c17PtrErr) Error() string { return "c17PtrErr" }
+
+type c17ValErr int
+
+func (c17ValErr) Error() string { return "c17ValErr" }
 
 var errC17Sentinel = errors.New("c17 sentinel error returned by a custom function")
 
@@ -192,6 +205,14 @@ func (fs *c17FnState) option(o c17COpt) fhirpath.CompileOption {
 		return compopts.AddFunction("k", func() (system.Collection, error) { return nil, nil })
 	case "nf":
 		return compopts.AddFunction("nf", 42)
+	case "pe":
+		return compopts.AddFunction("pe", func(in system.Collection) (system.Collection, *c17PtrErr) { return nil, nil })
+	case "ve":
+		return compopts.AddFunction("ve", func(in system.Collection) (system.Collection, c17ValErr) { return nil, 0 })
+	case "r3":
+		return compopts.AddFunction("r3", func(in system.Collection) (system.Collection, error, int) { return nil, nil, 0 })
+	case "fr":
+		return compopts.AddFunction("fr", func(in system.Collection) ([]any, error) { return nil, nil })
 	}
 	return compopts.AddFunction("nilf", nil)
 }
@@ -236,7 +257,7 @@ func init() {
 	progs := c17Programs()
 	core.Register(&core.Check{
 		ID: "C17",
-		Rule: "all evaluate-option lists of length 0..3 (quick) / 0..4 (thorough), in every order, over an 11-symbol alphabet {valid System value, valid element, valid collection, duplicate name, predefined context, predefined ucum, unsupported Go int, unsupported item first / last inside a collection, nil, OverrideTime} x 18 programs referencing each variable at the root, in a function argument, in where/select criteria and an iif branch, plus %context, %ucum, %unknown, delimited and string-named variables and an instrumented custom function; all compile-option lists of length 0..2 (quick) / 0..3 (thorough) over a 14-symbol alphabet {zero-arg fn, same name again, built-in name, 5 bad signatures, typed-arg fns, variadic, Permissive, WithExperimentalFuncs, Transform} x 19 call sites; outcomes compared with a reference fold of the contract written in the harness; non-trivial = distinct (option list, program, outcome)",
+		Rule: "all evaluate-option lists of length 0..3 (quick) / 0..4 (thorough), in every order, over an 11-symbol alphabet {valid System value, valid element, valid collection, duplicate name, predefined context, predefined ucum, unsupported Go int, unsupported item first / last inside a collection, nil, OverrideTime} x 18 programs referencing each variable at the root, in a function argument, in where/select criteria and an iif branch, plus %context, %ucum, %unknown, delimited and string-named variables and an instrumented custom function; all compile-option lists of length 0..2 (quick) / 0..3 (thorough) over a 20-symbol alphabet {zero-arg fn, same name again, built-in name, 9 bad signatures (wrong first parameter, wrong results, no parameters, non-function, nil, concrete error pointer / value as second result, three results, first result not a Collection), typed-arg fns, variadic, Permissive, WithExperimentalFuncs, Transform} x 19 call sites; outcomes compared with a reference fold of the contract written in the harness; non-trivial = distinct (option list, program, outcome)",
 		Assumptions: []string{"the reference fold (left-to-right map pre-seeded with context/ucum; which sentinel errors must be reported) is hand-written from the statement"},
 		Subs: func(tier string) []core.Sub {
 			eLen, cLen := 4, 3
